@@ -6,3 +6,5 @@ import ScadVerif.Props.C10
 import ScadVerif.Props.C11
 import ScadVerif.Props.C12
 import ScadVerif.Props.C03
+import ScadVerif.Props.C07
+import ScadVerif.Props.C08
